@@ -174,3 +174,10 @@ Qed.
 
 #[global] Arguments memb : simpl never.
 #[global] Arguments index_of : simpl never.
+
+Lemma comp_map_map_In {A} (f : val -> R (option val)) (h : A -> val) (g : A -> val) l :
+  (forall x, In x l -> f (h x) = Val (Some (g x))) -> comp_map f (map h l) = Val (map g l).
+Proof.
+  induction l as [|x r IH]; intros H; cbn [map comp_map]; [reflexivity|].
+  rewrite (H x (or_introl eq_refl)). cbn [bindR]. rewrite IH by (intros y Hy; apply H; right; exact Hy). reflexivity.
+Qed.
